@@ -163,7 +163,7 @@ class Check:
 
     # -- the decision protocol for one VC ---------------------------------------------
     def prove(self, name, hyps, goal, kind="post", boxes=None, replay=None, search=None, clause="", use_cvc5=None,
-              complete=True, timeout_ms=None):
+              complete=True, timeout_ms=None, unreachable_ok=None):
         """hyps => goal.  replay(model) -> dict(violated=bool, input=..., observed=...) runs the
         real code natively at the solver's counterexample; search() -> same dict or None looks
         for a failing input with the runtime form of the clause (bounded)."""
@@ -176,6 +176,14 @@ class Check:
             r = prover.Result("unknown", "error", 0.0, note="prover error: %s" % ex)
         o.backend, o.secs, o.note = r.backend, r.secs, r.note
         if r.status == "proved":
+            if "VACUOUS" in r.note and unreachable_ok is not None and unreachable_ok():
+                # the contract's own hypotheses are satisfiable (checked by the caller); what is contradictory is their conjunction with this
+                # path's condition / the operation's masked domain: the operation is not executed on this path for any event
+                o.status = "discharged"
+                o.backend = "unreachable(" + (r.backend or "z3") + ")"
+                o.note = "not executed on this path: path condition and domain of the operation exclude each other under the contract's (satisfiable) hypotheses"
+                self.vacuity["unreachable_on_path"] = self.vacuity.get("unreachable_on_path", 0) + 1
+                return o
             if "VACUOUS" in r.note:
                 self.vacuity["failed"].append(o.id + ": contradictory hypotheses")
                 o.status = "undecided"
